@@ -484,6 +484,30 @@ def find_loops(toks):
     return res
 
 
+def drop_unused_rev(body, rules):
+    """R16: `for _x in ( <lo> .. <hi> ) . rev ( ) {` -> `for _x in <lo> .. <hi> {` when the loop variable starts with `_`
+    and does not occur in the loop body: the reversed range yields the same number of values and nothing observes their
+    order, so the loop runs the same body the same number of times (Verus rejects the `.rev()` adapter)."""
+    out = list(body)
+    i = 0
+    while i < len(out):
+        t = out[i]
+        if t.k == "id" and t.s == "for" and i + 3 < len(out) and out[i + 1].k == "id" and out[i + 1].s.startswith("_") \
+                and out[i + 2].s == "in" and out[i + 3].s == "(":
+            close = match_close(out, i + 3)
+            tail = [x.s for x in out[close + 1:close + 6]]
+            inner = out[i + 4:close]
+            if tail == [".", "rev", "(", ")", "{"] and ".." in [x.s for x in inner]:
+                bopen = close + 5
+                bclose = match_close(out, bopen)
+                var = out[i + 1].s
+                if not any(x.k == "id" and x.s == var for x in out[bopen:bclose]):
+                    out = out[:i + 3] + inner + out[bopen:]
+                    rules.fired.add("R16")
+        i += 1
+    return out
+
+
 def sha(s):
     return hashlib.sha256(s.encode()).hexdigest()[:16]
 
@@ -655,6 +679,7 @@ def render_fn(idx, fs, table, ctx):
                       "src_line": idx.line_of(it.t0)})
         return "#[verifier::external_body]\n" + sig_txt + contract + "\n{ unimplemented!() }\n"
     body = toks[it.tb + 1:it.t1]
+    body = drop_unused_rev(body, rules)
     # loop invariants and anchored hints are inserted by token position
     inserts = {}
     if fs.loops:
